@@ -37,6 +37,7 @@ void h_optional(void) {
 #define OPTV(i) (which == 2 ? (i64)((100 + (SZ - 1 - (i))) * 2 + ((SZ - 1 - (i)) % 2 == 0)) : (i64)((100 + (i)) * 2 + ((i) % 2 == 0)))
   RA_CHECK(out, a, b, off, fi, fd, fr, OPTV);
   VASSERT(out[19] == SZ && out[20] == SZ && out[21] == SZ, "end() - begin() == size()");
+  VASSERT(out[22] == SZ && out[23] == SZ && out[24] == SZ && out[25] == 0, "const sequence: end() - begin(), rend() - rbegin(), crend() - crbegin() == size(); *rbegin() is the last element");
   HARNESS_END();
 }
 void h_complex(void) {
@@ -45,6 +46,7 @@ void h_complex(void) {
 #define CPXV(i) (which == 2 ? (i64)((100 + (SZ - 1 - (i))) * 1000 + (SZ - 1 - (i))) : (i64)((100 + (i)) * 1000 + (i)))
   RA_CHECK(out, a, b, off, fi, fd, fr, CPXV);
   VASSERT(out[19] == SZ && out[20] == SZ && out[21] == SZ, "end() - begin() == size()");
+  VASSERT(out[22] == SZ && out[23] == SZ && out[24] == SZ && out[25] == 0, "const sequence: end() - begin(), rend() - rbegin(), crend() - crbegin() == size(); *rbegin() is the last element");
   HARNESS_END();
 }
 void h_stepping(void) {
